@@ -61,6 +61,11 @@ def cells(tier, seed):
                 m1, m2 = L // 2 + rnd.choice([0, 1]), L // 2 + rnd.choice([2, 3])
                 out.append({'dim': 2, 'wave': w, 'mode': 'periodization', 'J': J, 'shape': [m1 * 2 ** J, m2 * 2 ** J],
                             'N': 1, 'C': 2})
+        elif L <= 34 and (tier == 'thorough' or rnd.random() < 0.5):
+            # longer filters in 2-D as well: one level on the smallest admissible image (L x (L+2) samples,
+            # operator of at most 34*36 = 1224 columns)
+            for _ in range(1 if tier == 'quick' else 4):
+                out.append({'dim': 2, 'wave': w, 'mode': 'periodization', 'J': 1, 'shape': [L, L + 2], 'N': 1, 'C': 2})
     rnd.shuffle(out)
     return out
 
